@@ -116,10 +116,6 @@ def parse(path):
         if ln == "}":
             funcs.setdefault(cur.name, cur)
             funcs.all.append(cur)
-            if cur.args:
-                # macro-generated impls share one `<impl at file:line>` name: also keyed by the first argument's type
-                t0 = re.sub(r"^&(?:'\w+ )?(?:mut )?", "", cur.args[0][1])
-                funcs.setdefault(cur.name + "@" + t0, cur)
             cur = None
             block = None
             i += 1
